@@ -26,6 +26,7 @@ typedef struct rp {
 	size_t   rxlen, rxcap;
 	int      eof; // peer (nng) closed
 	long     wr_calls, rd_calls;
+	size_t   wr_total; // bytes the kernel accepted from us so far
 } rp;
 
 // socket:// : create a socketpair, hand one end to the nng listener (NNG_OPT_SOCKET_FD), keep the other
